@@ -48,7 +48,9 @@ def has_repeat(knots):
 def gen_case(rng, small=False, allow_repeated=True):
     ndim = rng.choice([1, 1, 2, 2, 2, 3, 3, 4])
     kind = "strict"
-    if allow_repeated and rng.chance(0.08):
+    # repeated knots are routine since fix 33ef56f (splineutil.c:bspline skips vanishing denominators): about a quarter of the
+    # tables carry them, in any dimension, with multiplicities up to and beyond order+1 (discontinuous splines)
+    if allow_repeated and rng.chance(0.27):
         kind = "repeated"
     maxc = 40 if small else 1500
     while True:
@@ -60,14 +62,26 @@ def gen_case(rng, small=False, allow_repeated=True):
         if nco <= maxc:
             break
     knots = []
+    forced = rng.below(ndim)        # in a "repeated" table this dimension certainly has a repeated knot, the others with probability 1/2
     for d, (o, e) in enumerate(zip(orders, extras)):
         scale = 10.0 ** rng.rint(-2, 2)
         offset = (rng.unit() * 20 - 10) * scale
-        if kind == "repeated" and d == 0:
+        if kind == "repeated" and (d == forced or rng.chance(0.5)):
             for _ in range(50):
                 ks = gen_knots(rng, o, e, "repeated", scale, offset)
                 if has_repeat(ks):
                     break
+            if rng.chance(0.3):     # a knot of multiplicity order+1 or order+2 somewhere (full-multiplicity: the spline may jump there)
+                m = o + 1 + rng.below(2)
+                if m < len(ks) - 1:
+                    j = rng.below(len(ks) - m)
+                    for q in range(j + 1, j + m):
+                        ks[q] = ks[j]
+                    for q in range(1, len(ks)):
+                        if ks[q] < ks[q - 1]:
+                            ks[q] = ks[q - 1]
+                    if not (ks[0] < ks[-1]):
+                        ks[-1] = ks[0] + abs(ks[0]) + 1.0
         else:
             ks = gen_knots(rng, o, e, rng.choice(STRICT_STYLES), scale, offset)
             if has_repeat(ks):
@@ -220,7 +234,8 @@ def nan_eq_tokens(a, b):
 
 class C17:
     PROP = "C17"
-    RULE = ("tables of 1..4 dims, orders 0..4 mixed, strictly increasing knot vectors (uniform/irregular/integer/wild spacing; a separate class with repeated knots), "
+    RULE = ("tables of 1..4 dims, orders 0..4 mixed, knot vectors uniform/irregular/integer/wild spacing and (about a quarter of the tables) with repeated knots in one or "
+            "more dimensions, multiplicities up to order+2, "
             "coefficient arrays with 30-100% exact zeros (sparse, very sparse, single entry, zero edge slabs, all zero) x grids whose abscissae are drawn per axis from "
             "{every knot, both float neighbours, midpoints, both margins, ends of full support, first/last knot, beyond both ends}, unsorted, with repeated abscissae and "
             "single-point axes; non-trivial = at least two dimensions or an axis with a repeated/out-of-range/on-knot abscissa; distinct by (orders, knots, coefficient bits, grid bits)")
@@ -228,6 +243,7 @@ class C17:
     def __init__(self):
         self.harness = None
         self.model = None
+        self.d17_skipped = [0]
     def build(self):
         if self.harness is None:
             self.harness = build_harness("C17_harness", ["C17_harness.cpp"], flavour="faithful", fitter=True)
@@ -311,6 +327,7 @@ class C17:
             if bad:
                 continue
             pw = iout.get("P", [])
+            stats_d17 = self.d17_skipped
             rep = any(has_repeat(k) and o >= 1 for k, o in zip(t.knots, t.orders))
             for n, g in enumerate(itertools.product(*[range(l) for l in lens])):
                 xs = [c.grids[d][g[d]] for d in range(t.ndim)]
@@ -321,7 +338,8 @@ class C17:
                 pd, pf = [dfrom(int(h, 16)) for h in pw[n].split("/")]
                 ev, ea = exact.get(g, (Fraction(0), Fraction(0)))
                 v = listed.get(g, 0.0)
-                if pd != pd and rep:
+                if pd != pd and any(xs[d] == t.knots[d][t.naxes[d]] and t.knots[d][t.naxes[d] - 1] == t.knots[d][t.naxes[d]] for d in range(t.ndim)):
+                    stats_d17[0] += 1
                     continue            # pointwise NaN exactly on a repeated knot at the upper end of full support: finding D17 (C01), not C17
                 okd = (v == v) and math.isfinite(v) and math.isfinite(pd) and abs(Fraction(v) - Fraction(pd)) <= 2 * K_of(t) * Fraction(1, 2 ** 53) * ea + ETA * (1 + ea)
                 okf = (v == v) and math.isfinite(v) and math.isfinite(pf) and abs(Fraction(v) - Fraction(pf)) <= 2 * K_of(t) * Fraction(1, 2 ** 24) * ea + Fraction(1, 2 ** 140) * (1 + ea)
@@ -361,13 +379,8 @@ class C17:
                 diffs.append(("stored index set", "n=%d only-impl=%s" % (len(si), only_i), "n=%d only-model=%s" % (len(sm), only_m)))
             else:
                 finite_grid = all(math.isfinite(x) for g in c.grids for x in g)
-                rep = any(has_repeat(k) and o >= 1 for k, o in zip(t.knots, t.orders))
                 for (idx, vi), (_, vm) in zip(ri[2], rm[2]):
                     ev, ea = exact.get(idx, (Fraction(0), Fraction(0)))
-                    if rep and (vi != vi or vm != vm):
-                        if (vi != vi) != (vm != vm):
-                            diffs.append(("NaN pattern at %s" % (idx,), vi, vm)); break
-                        continue
                     if finite_grid and not (within(vi, ev, ea, t) and within(vm, ev, ea, t)):
                         diffs.append(("value at %s outside K*u*sum|terms| of the exact value %s (sum|terms| %s)" % (idx, float(ev), float(ea)), vi, vm)); break
         # executed instance of the theorem on exact rationals + cross-check of the Python transcription
@@ -478,6 +491,7 @@ class C17:
                 "traces_validated_against_impl": stats.get("traces_validated_against_impl", 0), "compared_values": stats.get("compared_values", 0),
                 "grid_points_checked_against_pointwise": gp, "model_vs_impl_disagreeing_grids": ndiff, "disagreements": stats.get("diffs", [])[:5],
                 "oracle_failures": stats.get("oracle_failures", 0), "search_volume_after_break": searched, "corpus_cases": stats.get("corpus_cases", 0),
+                "grid_points_skipped_pointwise_NaN_D17": self.d17_skipped[0],
                 "input_distribution": {"tables_by_ndim": dims, "case_kinds": kinds, "abscissa_region_classes": dist},
                 "remarks": ["an all-zero coefficient array makes ndsparse(0, ndim) throw (recorded, not flagged: the property speaks of values only)"]}
 
